@@ -3,7 +3,7 @@
    over any field and for ANY function used as square root. *)
 From Coq Require Import ZArith List Bool Field.
 Import ListNotations.
-Require Import PV.Base.Ops PV.Model.FitCand PV.Proofs.RelaxProofs PV.Proofs.FitCandProofs.
+Require Import PV.Base.Ops PV.Model.FitCand PV.Proofs.RelaxProofs PV.Proofs.FitCandProofs PV.Proofs.FitCandOrtho.
 
 (* for every aggregate, every number of candidates and every threshold: column j of the local
    candidate block equals  sum_{i<=j} R[i,j] q_i  when the column is kept (T * B_coarse = B on the
@@ -25,3 +25,28 @@ Proof.
   exact (mgs_col_reconstructs F z0 o1 ad ml sb op dv inv ab eq le lt fsqrt Fth).
 Qed.
 Print Assumptions C10_tentative_reproduces_candidates.
+
+Definition InvO {F} (o : Ops F) (n : nat) (qs : list (list F)) : Prop :=
+  Inv F (zero o) (one o) (add o) (mul o) (sub o) (opp o) (div o) (abs o) (eqb o) (leb o) (ltb o) n qs.
+(* Gram-Schmidt step preserves "pairwise orthogonal, each column of unit length or zero": the new
+   column is orthogonal to all earlier ones, has unit length when kept (given nrm^2 = |v|^2 for the
+   remainder at hand and nrm <> 0) and is the zero vector when dropped.  Starting from the empty
+   set (Inv_nil) this is the induction step for a whole aggregate: Q^T Q = diag(1 or 0). *)
+Theorem C10_gram_schmidt_step_orthonormal : forall F (o : Ops F) inv (fsqrt : F -> F), is_field o inv ->
+  forall (n : nat) tol qs col,
+  InvO o n qs -> length col = n ->
+  let '(q, _) := mgs_col o fsqrt tol qs col in
+  let '(v, _) := ortho o qs col in
+  let nrm := fsqrt (vnormsq o v) in
+  (ltb o (mul o tol (fsqrt (vnormsq o col))) nrm = true -> mul o nrm nrm = vnormsq o v -> nrm <> zero o ->
+     InvO o n (qs ++ [q]) /\ vdot o q q = one o) /\
+  (ltb o (mul o tol (fsqrt (vnormsq o col))) nrm = false ->
+     InvO o n (qs ++ [q]) /\ forall w, vdot o w q = zero o).
+Proof.
+  intros F [z0 o1 ad sb ml dv op ab eq le lt] inv fsqrt [Fth _].
+  exact (mgs_col_orthonormal F z0 o1 ad ml sb op dv inv ab eq le lt fsqrt Fth).
+Qed.
+Print Assumptions C10_gram_schmidt_step_orthonormal.
+(* the invariant holds for the empty set of columns (start of every aggregate) *)
+Example C10_invariant_start : forall F (o : Ops F) n, InvO o n [].
+Proof. intros F o n. apply Inv_nil. Qed.
